@@ -226,6 +226,23 @@ CHECKS.update({
     ),
 })
 
+CHECKS.update({
+    "C09": dict(
+        level="model_checking", engine="hbfs",
+        text="Explicit-state breadth-first search over operation histories executed on the real list/map objects: every history of <= 3 (thorough 4) operations of the "
+             "full list alphabet (13 producers, 12 consumers) and <= 4 (5) of the core/map alphabets over 19 initial pools (literal, lazily produced, spare-capacity, "
+             "folded-constant and inside-function-constant lists; literal / constant / struct-wrapper / hash maps), all append trees of <= 7 (9) appends, chains of "
+             "<= 8 (12) appends with branches at every position, and lists kept by callbacks. After every transition every live handle is compared through all "
+             "observers with a functional model fixed at creation; states are deduplicated on model value plus hidden state (itemsPresent, len, cap, backing-array "
+             "sharing, laziness, wrapper nesting). Quick: 675 k states, 1.9 M transitions, every one executed on the implementation.",
+        note="Trusted: the functional model written from the method descriptions; Go's non-moving allocator (array identity read as an address within one execution); "
+             "128-bit key hashes. Bounded by depth (no fixpoint: pools grow) and by list length <= 12 in the general alphabets. Map key order of hash-backed storages is "
+             "compared as a set. Parallel iterator mode and replace keys outside the key set are left to C06/C11/C13.",
+        technique="replay-based explicit-state BFS on real objects with hidden-state canonical keys (overlay accessors), functional reference model",
+        design_ref="DESIGN.md §3.4, §5 C09",
+    ),
+})
+
 NOT_YET = "check not built yet in this session (planned, see DESIGN.md §9); not claimed until its machinery exists"
 
 def main():
